@@ -55,7 +55,7 @@ theorem tieA_sx126x_symbol_num_timeout [Gen.PhyEncE126.LoopFuel] (hf : 2 ≤ Gen
     have b1 : (0 : Int) ≤ (v : Int) + 1 ∧ (v : Int) + 1 ≤ 65535 := by omega
     have hh1 : 1 ≤ (v + 1) / 2 := by omega
     have hh2 : (v + 1) / 2 ≤ 124 := by omega
-    simp +decide only [Rt.ck, Rt.shrC, Rt.ITy.lo, Rt.ITy.hi, Rt.ITy.bits, Rt.ITy.signed, Bool.false_eq_true, if_false, b1, if_true,
+    simp +decide only [Rt.ck, Rt.shrC, Rt.divC, Rt.ITy.lo, Rt.ITy.hi, Rt.ITy.bits, Rt.ITy.signed, Bool.false_eq_true, if_false, b1, if_true,
       ofOpt_some_bind_app, bind_assoc_app, Int.reducePow, Int.reduceSub, Int.reduceLE, Int.reduceToNat, and_self, e2]
     generalize (v + 1) / 2 = h at hh1 hh2 ⊢
     have w8 : ∀ x : Nat, x < 256 → Rt.wrap .u8 (x : Int) = (x : Int) := by
@@ -66,20 +66,29 @@ theorem tieA_sx126x_symbol_num_timeout [Gen.PhyEncE126.LoopFuel] (hf : 2 ≤ Gen
       have b2 : (0 : Int) ≤ (h : Int) + 3 ∧ (h : Int) + 3 ≤ 255 := by omega
       have e3 : ((h : Int) + 3) / 4 = (((h + 3) / 4 : Nat) : Int) := by omega
       have g2 : decide ((((h + 3) / 4 : Nat) : Int) > 31) = false := decide_eq_false (by omega)
+      -- the rounding spelt with `/ 4` (truncating division) instead of `>> 2`
+      have e3t : ((h : Int) + 3).tdiv 4 = (((h + 3) / 4 : Nat) : Int) := by
+        rw [Int.tdiv_eq_ediv_of_nonneg (by omega)]; exact e3
+      have b3 : (0 : Int) ≤ (((h + 3) / 4 : Nat) : Int) ∧ (((h + 3) / 4 : Nat) : Int) ≤ 255 := by omega
       have hm1 : 8 ≤ (h + 3) / 4 := by omega
       have hm2 : (h + 3) / 4 ≤ 31 := by omega
       rw [loopM_once k _ (0, (h : Int)) (1, (((h + 3) / 4 : Nat) : Int)) (1, (((h + 3) / 4 : Nat) : Int))
-        (by simp only [g1, b2, e3, if_true, Option.bind_eq_bind, Option.pure_def, Option.bind_some, and_self, Int.reduceAdd, Int.reduceLE])
+        (by simp only [g1, b2, e3, e3t, b3, if_true, Option.bind_eq_bind, Option.pure_def, Option.bind_some, and_self, Int.reduceAdd, Int.reduceLE])
         (by simp only [g2, if_false, Bool.false_eq_true, Option.pure_def])]
       simp only [if_pos g]
       generalize (h + 3) / 4 = m at hm1 hm2 ⊢
       have hw : Rt.wrap .u8 ((m : Int) * 8) = ((m * 8 : Nat) : Int) := by rw [← w8 (m * 8) (by omega)]; simp
       have hb : (0 : Int) ≤ 1 + ((m * 8 : Nat) : Int) ∧ 1 + ((m * 8 : Nat) : Int) ≤ 255 := by omega
       have hb' : ¬ (1 + m * 8 > 255) := by omega
-      phy_tie [hw, hb, hb', Int.reduceMul, Int.reduceAdd, Int.reduceToNat, Int.reducePow] []
+      -- the same bytes spelt with a checked multiplication instead of a shift
+      have hbm : (0 : Int) ≤ (m : Int) * 8 ∧ (m : Int) * 8 ≤ 255 := by omega
+      have hbm2 : (0 : Int) ≤ 1 + (m : Int) * 8 ∧ 1 + (m : Int) * 8 ≤ 255 := by omega
+      phy_tie [hw, hb, hb', hbm, hbm2, Int.reduceMul, Int.reduceAdd, Int.reduceToNat, Int.reducePow] []
       have q1 : m * 2 ^ (2 * 1 + 1) % 256 = m * 8 := by show m * 8 % 256 = m * 8; omega
       have q2 : (1 : Int) + ((m * 8 : Nat) : Int) = ((1 + m * 8 : Nat) : Int) := by omega
-      simp only [q1, q2]
+      have q3 : (1 : Int) + (m : Int) * 8 = ((1 + m * 8 : Nat) : Int) := by omega
+      have q4 : (m : Int) * 8 = ((m * 8 : Nat) : Int) := by omega
+      simp only [q1, q2, q3, q4]
       have hx : (m * 8) < 256 := by omega
       have hy : (1 + m * 8) < 256 := by omega
       generalize (1 + m * 8) = y at hy ⊢
@@ -93,10 +102,16 @@ theorem tieA_sx126x_symbol_num_timeout [Gen.PhyEncE126.LoopFuel] (hf : 2 ≤ Gen
       have hw2 : Rt.wrap .u8 ((h : Int) * 2) = ((h * 2 : Nat) : Int) := by rw [← w8 (h * 2) (by omega)]; simp
       have hb : (0 : Int) ≤ 0 + ((h * 8 : Nat) : Int) ∧ 0 + ((h * 8 : Nat) : Int) ≤ 255 := by omega
       have hb' : ¬ (0 + h * 8 > 255) := by omega
-      phy_tie [hw, hw2, hb, hb', Int.reduceMul, Int.reduceAdd, Int.reduceToNat, Int.reducePow] []
+      have hbm : (0 : Int) ≤ (h : Int) * 8 ∧ (h : Int) * 8 ≤ 255 := by omega
+      have hbm2 : (0 : Int) ≤ 0 + (h : Int) * 8 ∧ 0 + (h : Int) * 8 ≤ 255 := by omega
+      have hbm3 : (0 : Int) ≤ (h : Int) * 2 ∧ (h : Int) * 2 ≤ 255 := by omega
+      phy_tie [hw, hw2, hb, hb', hbm, hbm2, hbm3, Int.reduceMul, Int.reduceAdd, Int.reduceToNat, Int.reducePow] []
       have q1 : h * 2 ^ (2 * 0 + 1) % 256 = h * 2 := by show h * 2 % 256 = h * 2; omega
       have q2 : (0 : Int) + ((h * 8 : Nat) : Int) = ((0 + h * 8 : Nat) : Int) := by omega
-      simp only [q1, q2]
+      have q3 : (0 : Int) + (h : Int) * 8 = ((0 + h * 8 : Nat) : Int) := by omega
+      have q4 : (h : Int) * 8 = ((h * 8 : Nat) : Int) := by omega
+      have q5 : (h : Int) * 2 = ((h * 2 : Nat) : Int) := by omega
+      simp only [q1, q2, q3, q4, q5]
       have hx : (h * 2) < 256 := by omega
       have hy : (0 + h * 8) < 256 := by omega
       generalize (0 + h * 8) = y at hy ⊢
